@@ -56,7 +56,7 @@ func refHandler(backend string, g int, noKey bool) *dnsserver.FBDNSDB {
 func refResponse(backend string, g int, noKey bool, q *QRec) *dns.Msg {
 	refMu.Lock()
 	defer refMu.Unlock()
-	key := fmt.Sprintf("%s-%d-%v-%d-%d-%v-%d-%v", backend, g, noKey, q.Q.Q, q.Q.Client, q.Q.EDNS, q.Q.ECS, q.Q.BadVers)
+	key := fmt.Sprintf("%s-%d-%v-%d-%d-%v-%d-%v-%d", backend, g, noKey, q.Q.Q, q.Q.Client, q.Q.EDNS, q.Q.ECS, q.Q.BadVers, q.Q.Hdr)
 	if m, ok := refAnswers[key]; ok {
 		return m
 	}
@@ -109,7 +109,8 @@ func diffResponses(got, want *dns.Msg, wAns, wExtra bool) string {
 	if got.Rcode != want.Rcode {
 		return fmt.Sprintf("rcode %d, cache-off handler says %d", got.Rcode, want.Rcode)
 	}
-	if got.Authoritative != want.Authoritative || got.Truncated != want.Truncated || got.Response != want.Response || got.Opcode != want.Opcode || got.RecursionDesired != want.RecursionDesired {
+	if got.Authoritative != want.Authoritative || got.Truncated != want.Truncated || got.Response != want.Response || got.Opcode != want.Opcode || got.RecursionDesired != want.RecursionDesired ||
+		got.CheckingDisabled != want.CheckingDisabled || got.AuthenticatedData != want.AuthenticatedData || got.RecursionAvailable != want.RecursionAvailable {
 		return fmt.Sprintf("header flags differ: %v vs %v", got.MsgHdr, want.MsgHdr)
 	}
 	if len(got.Question) != len(want.Question) || (len(got.Question) > 0 && got.Question[0] != want.Question[0]) {
